@@ -236,7 +236,13 @@ Definition starttls_hook (st : sstate) (it : item) : bool :=
    (C07's event type has no constructor for this hook: the call is not part of the trace.) *)
 Definition hook_out (v : verdict) : option out :=
   match apply_verdict v 220 with
-  | None => Some {| o_replies := [421]; o_events := []; o_fin := Crashed |}
+  | None =>
+      (* the hook raised: the arm of handle() that sees it (Server.finish) *)
+      Some match fam_of v with
+           | FException => {| o_replies := [421]; o_events := []; o_fin := Crashed |}
+           | FTimeout => {| o_replies := [421]; o_events := []; o_fin := Closed |}
+           | FKill => {| o_replies := []; o_events := []; o_fin := Crashed |}
+           end
   | Some c =>
       if c =? 220 then None
       else Some {| o_replies := [c]; o_events := []; o_fin := if is_close c then Closed else Continue |}
